@@ -70,6 +70,34 @@ fn implied_bound_probe(rep: &mut Report) {
         ("struct-def-bound-spelled", "impl Arena", "pub fn pair<'x, 'y: 'x>(&self, p: Pair<'x, 'y>) -> u8 { 0 }", None),
         ("same-lifetime-twice", "impl Arena", "pub fn both<'x>(&self, span: &Span<'x, 'x>) -> u32 { 0 }", None),
     ];
+    // an elided borrow in the return type stays elided whatever generic arguments the type carries — also a
+    // `'static` one in front of it (js / dart are left out: they stop on a returned `'static` argument, finding F9)
+    {
+        let src = "#[diplomat::bridge]\nmod ffi {\n    #[diplomat::opaque]\n    pub struct Entry<'k>(&'k str);\n    #[diplomat::opaque]\n    pub struct Table(u8);\n    impl Table {\n        pub fn builtin(&self) -> &Entry<'static> { unimplemented!() }\n        pub fn maybe_builtin(&self) -> Option<&Entry<'static>> { unimplemented!() }\n        pub fn named<'a>(&'a self) -> &'a Entry<'static> { unimplemented!() }\n    }\n}\n";
+        for target in ["c", "cpp", "kotlin"] {
+            let o = tool::run_backend(src, target);
+            rep.oracle_runs += 1;
+            rep.count("probe:implied-bounds");
+            let ctxs: Vec<&str> = o.lowering_errors.iter().map(|(c, _)| c.as_str()).collect();
+            if !(ctxs.contains(&"Table::builtin") && ctxs.contains(&"Table::maybe_builtin")) || ctxs.contains(&"Table::named") {
+                rep.oracle_fail(&format!("(c05 probe elided-behind-static {target})"), "an elided lifetime in a return type is not refused (or a spelled-out one is) when the returned type also has a 'static argument", json!({"backend": target, "lowering_errors": o.lowering_errors, "source": src}));
+            }
+        }
+    }
+    // the context an error is reported under is the item it belongs to — also when the previous item lowered has the
+    // same name (two bridge modules) and had methods
+    {
+        let src = "#[diplomat::bridge]\nmod first {\n    pub struct Settings { pub a: u8 }\n    impl Settings {\n        pub fn is_default(self) -> bool { true }\n    }\n}\n#[diplomat::bridge]\nmod second {\n    pub struct Settings { pub depth: Option<u8> }\n}\n";
+        for target in ["c", "cpp", "js", "dart"] {
+            let o = tool::run_backend(src, target);
+            rep.oracle_runs += 1;
+            rep.count("probe:error-context");
+            let ctxs: Vec<&str> = o.lowering_errors.iter().map(|(c, _)| c.as_str()).collect();
+            if ctxs != vec!["Settings"] {
+                rep.oracle_fail(&format!("(c05 probe error-context {target})"), "a type-level lowering error is not reported under the type it belongs to", json!({"backend": target, "contexts": ctxs, "expected": ["Settings"], "source": src}));
+            }
+        }
+    }
     for (name, imp, method, expect) in cases {
         let src = format!("{head}    {imp} {{\n        {method}\n    }}\n}}\n");
         for target in ["c", "js", "dart", "kotlin"] {
